@@ -308,18 +308,12 @@ class Folder:
                 left = right
             return True
         if isinstance(expr, ast.BoolOp):
-            vals = [self.fold(v, scope) for v in expr.values]
-            if isinstance(expr.op, ast.And):
-                out = True
-                for v in vals:
-                    out = v
-                    if not v:
-                        break
-                return out
-            out = False
-            for v in vals:
-                out = v
-                if v:
+            # operands are evaluated left to right and only as far as needed, as the language does (`x is None or k in x`)
+            is_and = isinstance(expr.op, ast.And)
+            out = is_and
+            for e in expr.values:
+                out = self.fold(e, scope)
+                if bool(out) != is_and:
                     break
             return out
         if isinstance(expr, ast.Call):
